@@ -185,7 +185,7 @@ def concrete_playback(scratch, crate_dir, harness, harness_file, timeout=900):
     p2 = subprocess.run(cmd2, cwd=cwd, env=env, capture_output=True, text=True)
     native = (p2.stdout + p2.stderr)[-3000:]
     reproduced = None
-    if 'test result: FAILED' in native or 'panicked at' in native: reproduced = True
+    if 'test result: FAILED' in native or 'panicked at' in native or 'error: test failed' in native: reproduced = True
     elif 'test result: ok' in native: reproduced = False
     return test, native, reproduced
 
